@@ -70,6 +70,7 @@ class C09(Prop):
         _N += 1
         db = f"B{_N}"
         conn = _FS.connect(db, "S1")
+        self.othercur = _FS.connect("DECOY", "S1").cursor()
         self.longcur = conn.cursor()          # statements alternate between one long-lived cursor and fresh ones
         self.nstep = 0
         ev = []
@@ -92,6 +93,17 @@ class C09(Prop):
         self.nstep += 1
         cur = self.longcur if (self.nstep % 3 or k == "star") else conn.cursor()
         ok = {"res": "ok", "v": []}
+        if k == "touchdb":
+            if op["form"] == "connect":
+                _FS.connect(db, "S1").cursor().execute("select 1")
+            else:
+                cur.execute(f"create database if not exists {db}")
+            return ok
+        isq = "information_schema"
+        if op.get("via") == "other":
+            # the same view, database-qualified, read by a session whose current database is another one
+            cur = self.othercur
+            isq = f"{db}.information_schema"
         if k == "createt":
             cols = ", ".join(f"{n} {TYPE_SQL[t]}{' not null' if nn else ''}" for n, t, nn in SHAPES[op["sh"]])
             cmt = f" comment = '{op['cmt']}'" if op["cmt"] else ""
@@ -140,10 +152,10 @@ class C09(Prop):
             return ok
         # ---- reads
         if k == "ist":
-            rows = cur.execute(f"select table_schema, table_name, table_type, comment from information_schema.tables where table_catalog = '{db}' and table_schema in ('S1', 'S2')").fetchall()
+            rows = cur.execute(f"select table_schema, table_name, table_type, comment from {isq}.tables where table_catalog = '{db}' and table_schema in ('S1', 'S2')").fetchall()
             return {"res": "ok", "v": sorted([s, n, "T" if t == "BASE TABLE" else "V", c or ""] for s, n, t, c in rows)}
         if k == "isv":
-            rows = cur.execute(f"select table_schema, table_name from information_schema.views where table_catalog = '{db}'").fetchall()
+            rows = cur.execute(f"select table_schema, table_name from {isq}.views where table_catalog = '{db}'").fetchall()
             return {"res": "ok", "v": sorted([s, n] for s, n in rows if s in USER_SCHEMAS)}
         if k == "showsc":
             rows = cur.execute(f"show schemas in database {db}").fetchall()
@@ -156,7 +168,7 @@ class C09(Prop):
         if k == "isc":
             s, n = op["key"]
             rows = cur.execute(f"select column_name, ordinal_position, is_nullable, data_type, character_maximum_length, numeric_precision, numeric_scale "
-                               f"from information_schema.columns where table_catalog = '{db}' and table_schema = '{s}' and table_name = '{n}' order by ordinal_position").fetchall()
+                               f"from {isq}.columns where table_catalog = '{db}' and table_schema = '{s}' and table_name = '{n}' order by ordinal_position").fetchall()
             return {"res": "ok", "v": [[c, int(p), nl, dt, -1 if ln is None else int(ln), -1 if pr is None else int(pr), -1 if sc is None else int(sc)] for c, p, nl, dt, ln, pr, sc in rows]}
         if k in ("desc", "star"):
             s, n = op["key"]
